@@ -27,7 +27,21 @@ class ReverseBrownian(brownian_base.BaseBrownian):
     def __call__(self, ta, tb=None, return_U=False, return_A=False):
         # Whether or not to negate the statistics depends on the return value of the adjoint SDE. Currently, the adjoint
         # returns negated drift and diffusion, so we don't negate here.
-        return self.base_brownian(-tb, -ta, return_U=return_U, return_A=return_A)
+        out = self.base_brownian(-tb, -ta, return_U=return_U, return_A=return_A)
+        if not (return_U or return_A):
+            return out
+        # The increments above are those of the time-reversed path t -> -B(-t). Its space-time integral and its Levy
+        # area over [ta, tb] are not those of B over [-tb, -ta]: U -> (tb - ta) W - U and A -> -A.
+        W, *rest = out
+        if return_U:
+            U, *rest = rest
+            U = None if U is None else (tb - ta) * W - U
+        if return_A:
+            A, = rest
+            A = None if A is None else -A
+        if return_U:
+            return (W, U, A) if return_A else (W, U)
+        return W, A
 
     def __repr__(self):
         return f"{self.__class__.__name__}(base_brownian={self.base_brownian})"
